@@ -1,7 +1,15 @@
 #!/bin/sh
 # Re-confirm every recorded seed against /repo HEAD with the current checks (refreshes seeded/*/meta.json).
+# Six scratch worktrees /tmp/cs1..6 are created and removed; demos run in private network namespaces.
 cd "$(dirname "$0")/.." || exit 1
-for d in seeded/*/; do
-  n=$(basename "$d")
-  timeout 900 tools/confirm_seed.py "$d" "$n" --netns 2>&1 | tail -1 | cut -c1-200
+N=6
+for k in $(seq 1 $N); do git -C /repo worktree remove --force /tmp/cs$k 2>/dev/null; git -C /repo worktree add -q --detach /tmp/cs$k HEAD; done
+ls -d seeded/*/ | awk -v n=$N '{print > "/tmp/reconf." (NR % n + 1)}'
+for k in $(seq 1 $N); do
+  ( while read d; do n=$(basename "$d"); timeout 1500 tools/confirm_seed.py "$d" "$n" --netns --wt /tmp/cs$k "$@" 2>&1 | head -1 | cut -c1-260; done < /tmp/reconf.$k ) > /tmp/reconf.out.$k 2>&1 &
 done
+wait
+cat /tmp/reconf.out.* | sort
+for k in $(seq 1 $N); do git -C /repo worktree remove --force /tmp/cs$k; rm -f /tmp/reconf.$k /tmp/reconf.out.$k; done
+git -C /repo worktree prune
+rm -rf /tmp/hio_* 2>/dev/null
